@@ -1130,7 +1130,14 @@ class BuiltinsMixin(object):
         return res
 
     def bi_reversed(self, args, kw, path, node):
-        return self._coll_from('list', args[:1], path, node)
+        items = self.concrete_iter(args[0], path)
+        if items is not None:
+            return [(path, self._mk_coll('list', list(reversed(items)), path,
+                                         node))]
+        o = path.alloc('list', site=node)
+        path.heap[o.oid].parts.append(
+            Part('spread', App('reversed', self.snapshot(args[0], path))))
+        return [(path, o)]
 
     def bi_tuple(self, args, kw, path, node):
         if not args:
